@@ -49,8 +49,20 @@ var c07Docs = []string{
 	"&lt;tag&gt; text &hearts; [e](/e&#8364; '&#8364;') ![j](</j &#233;>)\n\n| a | b |\n|:--|--:|\n| 1 | 2 |\n| ~~s~~ | www.example.com |\n\n- [ ] todo\n- [x] done\n\nterm\n: definition &amp; more\n\nfoot[^1] note[^2] again[^1]\n\n[^1]: first\n[^2]: second `c`\n\n\"quoted\" -- dash... 'single'\n\nhttp://example.com/a_b?c=d&e=f and a@b.cd\n",
 	"&copy; 日本語の\n文章 です [k](/k&#x20AC;z) ~~~\n\n``` i&#110;fo\nx\n```\n\n## Heading two\n\n## Heading two\n\nSetext\n======\n\n![img](/i.png \"t\") <http://auto.link> <me@x.yz>\n\n***\n\n* * *\n\n1) one\n2) two\n\n   para in item\n\nline one  \nline two\\\nline three\n\n<!-- comment -->\n\n<?php echo 1; ?>\n\n[Ünï]: /u\n\n[ünï] [ÜNÏ][]\n",
 	"&amp; ![m](/m&#233; \"&#233;\") [o](<&#111;>)\n\n> - nested\n>   > deep `x`\n>\n> 1. n\n\n~~~~ info\n~~~\n~~~~\n\n| x |\n|---|\n\n*a **b** _c_* __d__ ~~e~~ \\* \\\\ &#0; &nosuch;\n\n[a][b] [b] [c]()\n\n[b]: <u v> (t)\n\nApple\n:   Pomaceous\n\n    para\n\nOrange\n:   Citrus\n\nx[^n]\n\n[^n]: n1\n\n    n2\n",
+	"<DIV>\nd\n</DIV>\n\n<Table>\n<TR><TD>a</TD></TR>\n</Table>\n\n<SECTION>\n\n<Pre>\nx\n</Pre>\n\n<sCRIPT>\ny\n</sCRIPT>\n\n<Ul>\n<LI>z</LI>\n</Ul>\n\n<H1>t</H1>\n\n<BlockQuote>\nq\n</BlockQuote>\n\n<Details>\n<Summary>s</Summary>\n</Details>\n\n<?PHP x ?>\n\n<!DOCTYPE html>\n\n<![CDATA[\nc\n]]>\n\ntext <Span CLASS=\"x\">i</Span> <Br/> &AMP; &Aacute; &aacute;\n",
 	"plain &amp; simple [p](/&#112;&#x71;)\n\n# T {.c k=v}\n\ntext\n",
 	"&quot;\n\n" + strings.Repeat("- item *e* `c` [l](/u&#8364;) &amp; &#8364;\n", 12) + "\n" + strings.Repeat("para with &lt; entity and \"quotes\" -- here\n\n", 6),
+}
+
+// documents whose first paragraph starts with an entity
+var c07EntFirst []string
+
+func init() {
+	for _, d := range c07Docs {
+		if strings.HasPrefix(d, "&") {
+			c07EntFirst = append(c07EntFirst, d)
+		}
+	}
 }
 
 // ---------------------------------------------------------------------------------
@@ -689,10 +701,14 @@ func runC07(c *Ctx) {
 		for pi, p := range paths {
 			cf := cfgPick(nextID)
 			docs := make([]string, len(oc.Gs))
+			pool := c07Docs
+			if oc.Ent == "idle" {
+				pool = c07EntFirst // the first entity lookup must fall into the first render chunk
+			}
 			for i := range docs {
-				docs[i] = c07Docs[(pi+i*2+ci)%len(c07Docs)]
+				docs[i] = pool[(pi+i*2+ci)%len(pool)]
 				if pi%7 == 3 {
-					docs[i] = c07Docs[pi%len(c07Docs)] // same document for everybody
+					docs[i] = pool[pi%len(pool)] // same document for everybody
 				}
 			}
 			run := c07MakeRun(nextID, "sched", cf, oc.Api, docs, oc.W)
